@@ -199,6 +199,15 @@ func runReplay(job *Job) Result {
 			} else if canon(r.Res) != canon([]byte(got)) {
 				bad = "differs"
 			}
+			if (r.Fn == "URIParamsEq" || r.Fn == "URIHdrsEq") && strings.Contains(got, `"shifted":`) {
+				// C15 (entry points agree): the comparison of two lists must not depend on where they sit in their buffers
+				declBad++
+				if len(res.Violations) < job.MaxViol {
+					res.Violations = append(res.Violations, Violation{Prop: "C15", What: "list comparison depends on the offsets of the lists in their buffers",
+						Text: r.Fn + string(args), Detail: "real: " + got, Sig: "shift:" + r.Fn})
+				}
+				continue
+			}
 			if r.Fn == "URICmp" && bad == "" {
 				bad = uriCmpLaws(r.Args, got)
 				if bad != "" {
